@@ -4,14 +4,16 @@ CFG = {
         'bitstr.Len': 'bitstr.Len(bitstr.New(s,from,to))',
         'bitstr.Cmp': 'bitstr.Cmp(bitstr.New(s1,f1,t1), bitstr.New(s2,f2,t2))',
         'bitstr.CmpUpto': 'bitstr.CmpUpto(a, bitstr.New(s,from,to)) + inputs unchanged',
-        'bitstr.StrCmpUpto': 'bitstr.StrCmpUpto(string(a), e) and bitstr.CmpUpto(a, e), e = bitstr.New(s,from,to), + inputs unchanged'},
+        'bitstr.StrCmpUpto': 'bitstr.StrCmpUpto(string(a), e) and bitstr.CmpUpto(a, e), e = bitstr.New(s,from,to), + inputs unchanged',
+        'bitstr.CmpUpto/viaNew': 'bitstr.CmpUpto(a, e) and bitstr.Cmp(bitstr.New(a, 0, min(8*len(a), bitstr.Len(e))), e), e = bitstr.New(s,from,to)',
+        'bitstr.CmpUpto/sorted': '[bitstr.CmpUpto(k, e) for k in keys], keys sorted by bytes.Compare, e = bitstr.New(s,from,to): spec values and non-decreasing'},
  'rule': 'bit strings are always given as (s, from, to) and encoded by the real New. cases = corpus + exhaustive sweeps (New and '
          'Len(New) on all strings of length <= 2 over {00,01,7f,80,ff,a,b} x all to x from (quick: boundary residues, thorough: all); '
          'Cmp on all pairs of the 57 one-byte bit strings (thorough: all 449^2 pairs of bit strings of length <= 16); CmpUpto/'
          'StrCmpUpto of plain strings of length <= 2 against those bit strings) + random pairs of strings of 0..20 bytes sharing '
          'prefixes (identical / one flipped bit / common prefix + tails / extension / last-byte low bits) with to drawn at the other '
          'side\'s length, byte boundaries and +-9 bits around it, from in the first byte, at to, aligned; plain a shorter / equal / '
-         'longer than the payload, flipped around bit to + a structured sweep (payload lengths 1..12 bytes x to in {8n,8n-3,8n-7} x every position of a single differing byte x len(a) in {i+1,n-1,n,n+1}; the same pairs through Cmp). A case is non-trivial when the bit strings involved are non-empty (and a is '
+         'longer than the payload, flipped around bit to + a structured sweep (payload lengths 1..12 bytes x to in {8n,8n-3,8n-7} x every position of a single differing byte x len(a) in {i+1,n-1,n,n+1}; the same pairs through Cmp; long strings of 16..40 payload bytes differing at bytes 7,8,15,16,n-2,n-1). Every CmpUpto case is also run as Cmp(New(a,0,min(8*len(a),Len(e))),e) (viaNew). Sorted key sets: the 57 plain strings of length <= 2 (sorted) against each of the 449 bit strings; random sets of 2..10 keys derived from the encoded string (cut, extended, flipped inside / at / after bit to, same payload + other tail, random), sorted with bytes.Compare (key = how many keys fall before / inside / after the matching block). A case is non-trivial when the bit strings involved are non-empty (and a is '
          'non-empty); shape key = (op, same byte length?, relation eq/prefix/first differing byte class and bit, to mod 8 = 0?, payload '
          'class <8/8/>8 bytes | CmpUpto branch empty/short/ge, cmpBytes fast path?); distinct = distinct (op,args)',
  'assumptions': ['0 <= from <= to <= 8*len(s) (the domain of New stated in the property); strings are byte lists',
